@@ -4,14 +4,21 @@
 //! self-checking value.  1-2 writer threads call `inner().write(new entry)`; 1-2 reader threads take
 //! a guard (typed `Handle::read`, untyped `UntypedHandle::read` + downcast, or a guard mapped to the
 //! second word with `AssetReadGuard::map`), copy the value and the reload id, yield, and look again
-//! before releasing the guard.
+//! before releasing the guard.  Further reader modes go through the accessors that take the guard
+//! themselves: `copied()`, `cloned()`, `read().clone()`, `Debug` formatting (two calls, yield between).
+//!
+//! The entry's value cell is a `TrackedCell` (see tracked.rs / build.rs): every access to the value is
+//! a read or write event for loom's happens-before check, so an access that bypasses the lock ends the
+//! execution with loom's "Causality violation" (class `data-race`) even though the scheduler never
+//! interleaves the memcpy itself.
 //!
 //! Oracles (tags): the value does not change under a guard `value-changed-under-guard`; nor does
 //! `last_reload_id` `id-changed-under-guard`; both words of every observed value agree `torn`; the value
 //! is the initial one or one that was written `unknown-value`; under a guard the reload id equals the
 //! number of completed writes, i.e. with one writer it is the version of the value and with several
 //! it is 0 exactly for the initial value `id-value-mismatch`; after the joins the value is a last
-//! write and the id is the number of writes `final-value` / `final-id`.
+//! write and the id is the number of writes `final-value` / `final-id`; short reads: `id-behind-value`,
+//! `value-went-back`; any unsynchronised access to the value: `data-race` (loom).
 use crate::asset::Storable;
 use crate::entry::probe::{raw, rid};
 use crate::entry::{AssetReadGuard, CacheEntry, Handle, ReloadId, UntypedHandle};
@@ -45,6 +52,14 @@ pub enum Reader {
     Mapped,
     /// a typed guard, released, then a mapped one
     TypedThenMapped,
+    /// `Handle::copied()` twice with a yield in between (no guard visible to the caller)
+    Copied,
+    /// `Handle::cloned()` twice
+    Cloned,
+    /// `Handle::read().clone()` twice
+    ReadClone,
+    /// `format!("{:?}", handle)` twice (the Debug impl reads the value)
+    Debug,
 }
 impl Reader {
     fn tag(self) -> &'static str {
@@ -53,6 +68,10 @@ impl Reader {
             Reader::Untyped => "untyped",
             Reader::Mapped => "mapped",
             Reader::TypedThenMapped => "typed+mapped",
+            Reader::Copied => "copied",
+            Reader::Cloned => "cloned",
+            Reader::ReadClone => "read-clone",
+            Reader::Debug => "debug",
         }
     }
 }
@@ -158,6 +177,52 @@ fn mapped_look(w: &World, who: &str, h: &Handle<Pair>) -> (usize, usize) {
     drop(m);
     (first, id1)
 }
+/// Short reads through the accessors that take (and release) the guard themselves: two calls with
+/// a yield in between.  No guard is held by the caller, so the value may change between the calls;
+/// each value must be complete and known, values never go back in time, and a reload id read after
+/// a value is at least the value's version (one writer: versions are ids).
+fn short_looks(w: &World, who: &str, h: &Handle<Pair>, kind: Reader) -> Vec<(usize, usize)> {
+    let get = |h: &Handle<Pair>| -> Pair {
+        op();
+        match kind {
+            Reader::Copied => h.copied(),
+            Reader::Cloned => h.cloned(),
+            Reader::ReadClone => h.read().clone(),
+            _ => {
+                // Handle { id: "k", value: Pair { v: 1, chk: 18446744073709551614 } }
+                let s = format!("{h:?}");
+                let num = |key: &str| -> usize {
+                    let i = s.find(key).unwrap_or_else(|| fail!("harness", "Debug text {s:?} has no {key}")) + key.len();
+                    s[i..].chars().take_while(|c| c.is_ascii_digit()).collect::<String>().parse().unwrap_or_else(|_| fail!("harness", "Debug text {s:?}"))
+                };
+                Pair { v: num("v: "), chk: num("chk: ") }
+            }
+        }
+    };
+    let mut seen = vec![];
+    for i in 0..2 {
+        let a = get(h);
+        let id = raw(h.last_reload_id());
+        if !a.consistent() {
+            fail!("torn", "{who}: words {:#x}/{:#x} do not belong to one value", a.v, a.chk);
+        }
+        if !w.allowed(a.v) {
+            fail!("unknown-value", "{who}: value {} was never stored", a.v);
+        }
+        if id > w.total() || (w.writers.len() == 1 && id < a.v) || (a.v != 0 && id == 0) {
+            fail!("id-behind-value", "{who}: value of write {} but the reload id read afterwards is {id}", a.v);
+        }
+        seen.push((a.v, id));
+        if i == 0 {
+            loom::thread::yield_now();
+        }
+    }
+    if w.writers.len() == 1 && seen[1].0 < seen[0].0 {
+        fail!("value-went-back", "{who}: version {} then version {}", seen[0].0, seen[1].0);
+    }
+    seen
+}
+
 fn body(writers: &[usize], readers: &[Reader]) {
     let world = Arc::new(World { writers: writers.to_vec() });
     let e = Arc::new(new_entry(0));
@@ -195,6 +260,7 @@ fn body(writers: &[usize], readers: &[Reader]) {
                     seen.push(typed_look(&world, &who, h));
                     seen.push(mapped_look(&world, &who, h));
                 }
+                Reader::Copied | Reader::Cloned | Reader::ReadClone | Reader::Debug => seen.extend(short_looks(&world, &who, h, kind)),
             }
             // successive looks of one thread never go back in time
             for p in seen.windows(2) {
@@ -248,6 +314,18 @@ pub fn configs(thorough: bool) -> Vec<Config> {
     for r in [Typed, Mapped, Untyped] {
         add(vec![1, 1], vec![r]);
     }
+    // the accessors that lock internally
+    for r in [Copied, Cloned, ReadClone, Debug] {
+        add(vec![1], vec![r]);
+    }
+    for r in [Copied, Cloned, ReadClone, Debug] {
+        add(vec![2], vec![r]);
+    }
+    for r in [Copied, Cloned, ReadClone] {
+        add(vec![1, 1], vec![r]);
+    }
+    add(vec![1], vec![Typed, Copied]);
+    add(vec![2], vec![Copied, Cloned]);
     add(vec![1], vec![Typed, Mapped]);
     add(vec![2], vec![Typed, Mapped]);
     add(vec![1, 1], vec![Typed, Mapped]);
